@@ -144,6 +144,27 @@ fn build_calls(rng: &mut Rng) -> Vec<Vec<u8>> {
         let c = calls[calls.len() - 1].clone();
         calls.push(c);
     }
+    // ... or insert an earlier name again with OTHER values (an update in place), and set the
+    // RCS Id again: the written form must show the latest values
+    if rng.chance(1, 3) && calls.len() > 1 {
+        let k = rng.below(calls.len());
+        if calls[k][0] == 1 {
+            let name: Vec<u8> = calls[k][1..].split(|c| *c == 0).next().unwrap().to_vec();
+            let mut c = vec![1u8];
+            c.extend(&name);
+            c.push(0);
+            if name.starts_with(b"patch-") || rng.chance(1, 2) { c.push(b'-'); } else { c.extend(b"4242"); }
+            c.push(0);
+            c.extend(DNAMES[rng.below(6)].as_bytes());
+            c.push(0);
+            c.extend(hash_str(rng).as_bytes());
+            calls.push(c);
+        } else {
+            let mut c = vec![0u8];
+            c.extend(b"$NetBSD: again $");
+            calls.push(c);
+        }
+    }
     calls
 }
 
@@ -249,6 +270,14 @@ fn gen_c11(tier: &str, rng: &mut Rng, emit: &mut dyn FnMut(Op)) {
     ];
     for p in probes {
         emit(Op::new("entrytype", &[p]));
+    }
+    // ".tar." ANYWHERE in the name keeps a patch-like name with the distfiles — also when more
+    // suffixes follow it, when it is the very end, or when it occurs twice
+    for pre in ["patch-", "emul-linux-patch-", "patch-2.7.6", "emul-a-patch-b", "sub/patch-", "foo-"] {
+        for mid in [".tar.xz", ".tar.gz.sig", ".tar.xz.asc", ".tar.", ".tar", ".tar.gz.sha256.txt", "a.tar.b.c", ".tar..", ".tar.tar.", ".tarx.gz", "x.tar"] {
+            let n = format!("{}{}", pre, mid);
+            emit(Op::new("entrytype", &[n.as_bytes()]));
+        }
     }
     for j in 0..16 {
         let mut r = Rng::new(j);
